@@ -379,6 +379,7 @@ func genBurst(c *hx.Ctx, rounds int) string {
 	b.En = []int64{100000, 200000, 50000}[r.Intn(3)]
 	b.Ee = b.En / 2
 	period := 8 * b.En
+	preload := r.Intn(2) == 0
 	keyOf := func(i int) string {
 		switch i % 5 {
 		case 0:
@@ -398,6 +399,11 @@ func genBurst(c *hx.Ctx, rounds int) string {
 			b.add(base+3*b.En+int64(i), "load %%c k=%s loader=dur:%d,val:%d", keyOf(i), 2*b.En, rd)
 		}
 		nb := b.J + 3
+		if preload { // the burst keys were loaded 1.4 En ago: the burst Loads are REFRESHES of stale entries
+			for i := 0; i < nb; i++ {
+				b.add(base+2*b.En+b.En*6/10+int64(i), "load %%c k=%s loader=dur:0,val:%d", keyOf(b.P+i), 1000+rd)
+			}
+		}
 		for i := 0; i < nb; i++ {
 			t := base + 4*b.En + 1 + int64(i)
 			dur := []int64{1000, 1, 0, 3000}[r.Intn(4)]
@@ -778,6 +784,148 @@ func genErrorStreak(c *hx.Ctx) string {
 	return b.line()
 }
 
+// ---------------------------------------------------------------- round-4 classes
+
+// COLLIDING STRING KEYS: two or three distinct equal-length strings with the same 32-bit hash (and shard) used as keys
+// of one story: both loaded, one loaded while the other is loading / fresh / stale, Set of one then Get2 of the other,
+// refresh of one while the other is fresh. Each key has its own loader, value and future.
+func genCollide(c *hx.Ctx) string {
+	r := c.Rng
+	cols := collidingKeys()
+	if len(cols) == 0 {
+		return genShare(c)
+	}
+	col := cols[r.Intn(len(cols))]
+	c.Count("collide_" + col.kind)
+	ks := col.keys
+	b := pickCfg(r)
+	val := 1
+	var loads []int
+	t := int64(r.Intn(1000))
+	n := 4 + r.Intn(8)
+	for i := 0; i < n; i++ {
+		k := ks[r.Intn(len(ks))]
+		if i < len(ks) {
+			k = ks[i] // every key of the group is used
+		}
+		switch r.Intn(9) {
+		case 0, 1, 2, 3:
+			dur := []int64{0, 1000, b.En / 2, 2 * b.En}[r.Intn(4)]
+			cid := b.add(t, "load %%c k=%s loader=dur:%d,val:%d", k, dur, val)
+			val++
+			loads = append(loads, cid)
+			if r.Intn(2) == 0 {
+				b.fget(t+dur+1, cid)
+			}
+		case 4, 5:
+			b.add(t, "get2 %%c k=%s", k)
+		case 6:
+			b.add(t, "set %%c k=%s val:%d", k, val)
+			val++
+		default:
+			if len(loads) > 0 {
+				b.fget(t, loads[r.Intn(len(loads))])
+			}
+		}
+		switch r.Intn(6) {
+		case 0:
+			t++
+		case 1:
+			t += 1000
+		case 2:
+			t += b.En + int64(r.Intn(int(b.En))) // the earlier results are stale now
+		case 3:
+			t += 2*b.En + 1
+		default:
+			t += int64(r.Intn(int(b.En)))
+		}
+	}
+	for _, k := range ks {
+		b.add(t+1, "get2 %%c k=%s", k)
+		t += 2
+	}
+	for _, l := range loads {
+		b.fget(t+int64(r.Intn(int(3*b.En))), l)
+	}
+	return b.line()
+}
+
+// NESTED (DEPENDENT) LOADERS: the loader of key A consults the cache for key B - Load(B) + Future.Get2 - before it
+// returns. Legal, and live whenever another worker can run B's job: P >= 2 with B queued behind A while every
+// worker is still busy (backlog), or any P when B is already resolved. Exactly one depending loader per scenario,
+// all other loaders are leaves, so on a correct cache every call returns.
+func genNested(c *hx.Ctx) string {
+	r := c.Rng
+	b := &builder{}
+	b.P = []int{2, 2, 3, 1}[r.Intn(4)]
+	b.J = []int{4, 8, 128}[r.Intn(3)]
+	b.En = []int64{1000000, 2000000}[r.Intn(2)]
+	b.Ee = b.En / 2
+	kA, kB := "i:1001", "i:2002"
+	if r.Intn(3) == 0 {
+		kA, kB = keyPool[r.Intn(len(keyPool))], "s:6e6573746564"
+	}
+	t := int64(10)
+	val := 1
+	if b.P == 1 {
+		// only worker: B must already be there when A's loader asks for it
+		cb := b.add(t, "load %%c k=%s loader=dur:%d,val:%d", kB, []int64{0, 1000}[r.Intn(2)], val)
+		val++
+		b.fget(t+2000, cb)
+		t += 3000
+		ca := b.add(t, "load %%c k=%s loader=dur:%d,val:%d", kA, 500, val)
+		val++
+		n1 := b.add(0, "load %%c k=%s loader=dur:1,val:99 in=c%d", kB, ca)
+		b.add(0, "fget %%c of=c%d in=c%d", n1, ca)
+		b.fget(t+1, ca)
+		b.add(t+5000, "get2 %%c k=%s", kA)
+		return b.line()
+	}
+	// blockers keep every worker busy while the queue fills
+	block := b.En/4 + int64(r.Intn(int(b.En/4)))
+	for i := 0; i < b.P; i++ {
+		b.add(t+int64(i), "load %%c k=i:%d loader=dur:%d,val:%d", 3000+i, block+int64(i)*7, val)
+		val++
+	}
+	t += int64(b.P) + 5
+	// fillers before A (0..2), then A, then B directly behind it (or one filler between), then fillers
+	for i, n := 0, r.Intn(3); i < n; i++ {
+		b.add(t, "load %%c k=i:%d loader=dur:%d,val:%d", 4000+i, []int64{0, 100, 1000}[r.Intn(3)], val)
+		val++
+		t++
+	}
+	ca := b.add(t, "load %%c k=%s loader=dur:%d,val:%d", kA, []int64{0, 500}[r.Intn(2)], val)
+	val++
+	t++
+	if r.Intn(4) == 0 {
+		b.add(t, "load %%c k=i:%d loader=dur:50,val:%d", 4500, val)
+		val++
+		t++
+	}
+	var cb int
+	if r.Intn(5) != 0 { // B queued behind A by a client
+		cb = b.add(t, "load %%c k=%s loader=dur:%d,val:%d", kB, []int64{0, 200, 2000}[r.Intn(3)], val)
+		val++
+		t++
+		b.fget(t+block, cb)
+	}
+	for i, n := 0, r.Intn(3); i < n; i++ {
+		b.add(t, "load %%c k=i:%d loader=dur:%d,val:%d", 5000+i, []int64{0, 100}[r.Intn(2)], val)
+		val++
+		t++
+	}
+	// what A's loader does: Load(B) (shares the queued load, or starts it) and waits for the result
+	n1 := b.add(0, "load %%c k=%s loader=dur:3,val:98 in=c%d", kB, ca)
+	b.add(0, "fget %%c of=c%d in=c%d", n1, ca)
+	if r.Intn(3) == 0 {
+		b.add(0, "get2 %%c k=%s in=c%d", kB, ca)
+	}
+	b.fget(t+1, ca)
+	b.add(t+block+b.En/2, "get2 %%c k=%s", kA)
+	b.add(t+block+b.En/2+1, "get2 %%c k=%s", kB)
+	return b.line()
+}
+
 func genPure(c *hx.Ctx, n int) {
 	r := c.Rng
 	for i := 0; i < n; i++ {
@@ -862,6 +1010,8 @@ func gen(mode string) func(c *hx.Ctx) {
 				{w(150, 3000), func() string { return genContract(c) }, "contract"},
 				{w(400, 8000), func() string { return genTickTie(c) }, "ticktie"},
 				{w(60, 1000), func() string { return genErrorStreak(c) }, "errorstreak"},
+				{w(600, 10000), func() string { return genCollide(c) }, "collide"},
+				{w(60, 1000), func() string { return genNested(c) }, "nested"},
 			}
 		case "C05":
 			genBoundary(c, emit)
@@ -876,6 +1026,8 @@ func gen(mode string) func(c *hx.Ctx) {
 				{w(100, 2000), func() string { return genContract(c) }, "contract"},
 				{w(300, 8000), func() string { return genTickTie(c) }, "ticktie"},
 				{w(300, 6000), func() string { return genErrorStreak(c) }, "errorstreak"},
+				{w(150, 3000), func() string { return genCollide(c) }, "collide"},
+				{w(40, 1000), func() string { return genNested(c) }, "nested"},
 			}
 		default: // C06
 			phases = []phase{
@@ -890,6 +1042,8 @@ func gen(mode string) func(c *hx.Ctx) {
 				{w(500, 10000), func() string { return genContract(c) }, "contract"},
 				{w(100, 3000), func() string { return genTickTie(c) }, "ticktie"},
 				{w(40, 1000), func() string { return genErrorStreak(c) }, "errorstreak"},
+				{w(100, 2000), func() string { return genCollide(c) }, "collide"},
+				{w(400, 8000), func() string { return genNested(c) }, "nested"},
 			}
 		}
 		for _, ph := range phases {
